@@ -13,7 +13,7 @@ RULE_NAMES = ['Netflix', 'Uber Eats', 'Uber', 'AMZN #1', 'Rule 7', 'Coffee ☕',
               'Large', 'Holiday', 'Travel-Inn', 'x']
 CATEGORIES = ['Food', 'Subscriptions', 'Bills & Utilities', 'Shopping', 'Transport', 'Transfers: Out']
 SUBCATS = ['', '', 'Streaming', 'Delivery', 'Online', 'Rideshare']
-STATIC_TAGS = ['recurring', 'Food', ' large ', 'INCOME', 'transfer', 'business', 'Review', 'x-y', 'ünï']
+STATIC_TAGS = ['recurring', 'Food', ' large ', 'INCOME', 'transfer', 'business', 'Review', 'x-y', 'ünï', '#tax', 'schedule #e']
 LET_NAMES = ['m', 't', 'flag', 'lbl']
 
 
@@ -28,6 +28,9 @@ dyn_tag = st.one_of(
     # counted quantifiers: braces INSIDE the {expression}
     st.sampled_from([r'REF:(\d{2,})', r'(\d{4})', r'#(\d{1,6})', r'([A-Z]{3,})']).map(lambda p: ['call', 'extract', [['str', p]]]),
     st.just(['call', 'extract', [['field', 'memo'], ['str', r'REF:(\d{1,3})']]]),
+    # a blank followed by # INSIDE the {expression}: not a comment
+    st.sampled_from([r'ORDER #(\d+)', r'(\w+) #\d+', r'INV #(\w+)']).map(lambda p: ['call', 'extract', [['str', p]]]),
+    st.just(['call', 'extract', [['field', 'memo'], ['str', r'REF #?(\d+)']]]),
     st.just(['listcomp', ['attr', 'r', 'item'], 'r', ['name', 'orders'], None]),
     st.just(['listcomp', ['attr', 'r', 'item'], 'r', ['name', 'orders'], ['cmp', ['attr', 'r', 'amount'], [['==', ['txn', 'amount']]]]]),
     st.just(['var', 'label']),
